@@ -125,6 +125,12 @@ def random_replay(t):
     ev = []
     try:
         for e in t["ev"]:
+            # the recorded operation sequence was chosen against the recording tree's state; operations that
+            # are not applicable on this tree (cancel of a finished future, advance without a deadline) are skipped
+            if e["a"].startswith("cancel_") and e["args"][0] not in real.pending(e["a"][7]):
+                continue
+            if e["a"] == "advance" and not real.timed_pending():
+                continue
             ev.append({"a": e["a"], "args": e["args"], "obs": real.step(e["a"], e["args"])})
     finally:
         real.close()
@@ -159,15 +165,20 @@ def c2s(ctx, n):
         jobs.append((i + 1, ctx.seed * 1000003 + i, TRACE_IDS, ctx.pick(150, 300), profile))
     traces = framework.pool_map(random_trace, jobs)
     ctx.validate("sync", "Trace_Queue", "Trace_Queue.cfg", traces,
-                 overrides={"NP": TRACE_IDS, "NG": TRACE_IDS, "NJ": max(4, TRACE_IDS // 3)}, sig_fn=_trace_sig)
+                 overrides={"NP": TRACE_IDS, "NG": TRACE_IDS, "NJ": max(4, TRACE_IDS // 3)}, sig_fn=_trace_sig,
+                 timeout=ctx.pick(900, 3000))
 
 
 def run(ctx):
     # 1. model checking of the specification
-    ctx.mc("sync", "Queue", "MC_Queue.cfg",
-           overrides=ctx.pick({}, {"NP": 4, "NG": 3, "NJ": 2, "MaxSizes": "{0, 1, 2, 3}"}),
-           required_actions=["Put", "PutNowait", "Get", "GetNowait", "TaskDone", "Join", "Advance",
-                             "CancelPut", "CancelGet", "CancelJoin"])
+    req = ["Put", "PutNowait", "Get", "GetNowait", "TaskDone", "Join", "Advance", "CancelPut", "CancelGet", "CancelJoin"]
+    if ctx.quick:
+        ctx.mc("sync", "Queue", "MC_Queue.cfg", required_actions=req, timeout=900)
+    else:
+        ctx.mc("sync", "Queue", "MC_Queue.cfg", overrides={"NP": 4, "NG": 3, "NJ": 1, "MaxSizes": "{1, 2}"},
+               required_actions=req, timeout=3000)
+        ctx.mc("sync", "Queue", "MC_Queue.cfg", overrides={"NP": 3, "NG": 3, "NJ": 2, "MaxSizes": "{0, 1, 2, 3}"},
+               required_actions=req, timeout=3000)
     # 2. spec -> code: all paths up to L over five alphabets
     rule = []
     for name, ov, lq, lt in GEN_FAMILIES:
